@@ -100,8 +100,12 @@ package config
 //@   ensures [C10] result.1 == nil ==> result.0.OpenRGB.Colors.Black.Red == byte(cfg.OpenRGB.Black >> 16) && result.0.OpenRGB.Colors.C.Green == byte(cfg.OpenRGB.C >> 8) && result.0.OpenRGB.Colors.Unavailable.Blue == byte(cfg.OpenRGB.Unavailable) && result.0.OpenRGB.Colors.Other.Red == byte(cfg.OpenRGB.Other >> 16) && result.0.OpenRGB.Colors.Active.Green == byte(cfg.OpenRGB.Active >> 8) && result.0.OpenRGB.Colors.ActiveExternal.Blue == byte(cfg.OpenRGB.ActiveExternal)
 //@   ensures [C10] result.1 == nil ==> result.0.ActionMapping == actionMapping && result.0.ActionMapping != nil
 //@   ensures [C05,C10] result.1 == nil ==> cfgOK(result.0)
+//@   ensures [C05] result.1 == nil ==> cfgDz(result.0)
 //@   loop 1 invariant [C10] len(keyMapping) == idx() && idx() >= 0 && idx() <= len(cfg.KeyMappings) && (len(keyMapping) == 0 || allocated(keyMapping))
 //@   loop 1 invariant [C10] forall j int :: 0 <= j && j < idx() ==> keyMapping[j].Name == cfg.KeyMappings[j].Name
+//@   loop 1 invariant [C05] forall j int, sub string :: 0 <= j && j < idx() ==> allocated(keyMapping[j].Analog) && allocated(keyMapping[j].DefaultDeadzone) && (has(keyMapping[j].Analog, sub) ==> has(keyMapping[j].DefaultDeadzone, sub))
+//@   loop 4 invariant [C05] analogMapping != nil && defaultDeadzone != nil && allocated(analogMapping) && allocated(defaultDeadzone) && (forall sub string :: has(analogMapping, sub) ==> has(defaultDeadzone, sub))
+//@   loop 4 invariant [C05] forall j int, sub string :: 0 <= j && j < idx(1) - 1 ==> allocated(keyMapping[j].Analog) && allocated(keyMapping[j].DefaultDeadzone) && keyMapping[j].Analog != analogMapping && keyMapping[j].DefaultDeadzone != defaultDeadzone && (has(keyMapping[j].Analog, sub) ==> has(keyMapping[j].DefaultDeadzone, sub))
 //@   loop 9 invariant [C10] len(exitSequence) == idx() && idx() >= 0 && idx() <= len(cfg.ExitSequence)
 //@   loop 8 invariant [C10] idx() >= 0 && idx() <= len(keyMapping) && mappingIndex >= -1 && mappingIndex < idx() && (mappingIndex >= 0 ==> keyMapping[mappingIndex].Name == cfg.Defaults.Mapping)
 //@   safety [C09]
